@@ -105,5 +105,10 @@ def run(ctx):
                 rs.ok({"class": r["cls"].split(".")[-1], "shape": r["shape"], "second_map": "same result as a fresh instance"})
         ctx.floor(rs, 4)
 
+    if ctx.want("R8"):
+        rs = ctx.rule("R8", "real managers: a substitution in a second environment (bound occurrences included) is the same whether or not the first environment worked on nodes with the same ids before")
+        from . import mgr_deep
+        mgr_deep.report(ctx, rs, [r for r in mgr_deep.xenv_results() if "ForAll" in r[1] or "Exists" in r[1] or r[0] != "ok"], "pysmt/substituter.py", 3)
+
     from . import c05_deep
     c05_deep.run(ctx)
